@@ -188,6 +188,14 @@ func (q *Query) addNumVal(val string) {
 	elem.lastCond = ILLEGAL
 }
 
+// unquote returns the value of a double-quoted string literal (text includes the
+// quotes). The grammar admits a raw newline inside the quotes, Go's string syntax does
+// not: it stands for itself.
+func unquote(text string) string {
+	s, _ := strconv.Unquote(strings.Replace(text, "\n", `\n`, -1))
+	return s
+}
+
 func (q *Query) startList() {
 	elem := q.lastCallStackElem()
 	q.validateArgField(elem) // case 5
@@ -522,6 +530,16 @@ func formatValue(v interface{}) string {
 		return joinInterfaceSlice(v)
 	case []uint64:
 		return joinUint64Slice(v)
+	case []int64:
+		return joinInt64Slice(v)
+	case []string:
+		other := make([]string, len(v))
+		for i := range v {
+			other[i] = strconv.Quote(v[i])
+		}
+		return "[" + strings.Join(other, ",") + "]"
+	case float64:
+		return formatFloat(v)
 	case time.Time:
 		return fmt.Sprintf("\"%s\"", v.Format(timeFormat))
 	case *Condition:
@@ -547,14 +565,28 @@ func CopyArgs(m map[string]interface{}) map[string]interface{} {
 func joinInterfaceSlice(a []interface{}) string {
 	other := make([]string, len(a))
 	for i := range a {
-		switch v := a[i].(type) {
-		case string:
-			other[i] = fmt.Sprintf("%q", v)
-		default:
-			other[i] = fmt.Sprintf("%v", v)
-		}
+		other[i] = formatValue(a[i])
 	}
 	return "[" + strings.Join(other, ",") + "]"
+}
+
+func joinInt64Slice(a []int64) string {
+	other := make([]string, len(a))
+	for i := range a {
+		other[i] = strconv.FormatInt(a[i], 10)
+	}
+	return "[" + strings.Join(other, ",") + "]"
+}
+
+// formatFloat writes f the way the parser reads a float back: plain decimal notation
+// (the grammar has no exponent) that always contains the decimal point, so that a
+// float argument does not turn into an integer on the node the call is forwarded to.
+func formatFloat(f float64) string {
+	s := strconv.FormatFloat(f, 'f', -1, 64)
+	if !strings.Contains(s, ".") {
+		s += ".0"
+	}
+	return s
 }
 
 func joinUint64Slice(a []uint64) string {
